@@ -213,6 +213,33 @@ def conv_rules(index, conv, tabs, rep):
                 rep.check(got == want, rule, f"{n}:{fr[lane]} -> {to[lane]}",
                           f"get_conversion does not return to/from of the {n} table in the {n} slot (nutrient lanes crossed or "
                           "wrong formula)", loc=loc(UC, fn), detail=f"got {got}, want {want}")
+    # the conversion of a nutrient does not depend on whether the scenario tracks fat / protein: the same factors with the nutrients excluded
+    for ex_fat, ex_prot in ((True, True), (True, False), (False, True)):
+        conv2 = Obj(conv.cls, dict(conv.attrs), conv.name)
+        conv2.attrs.update({"exclude_fat": ex_fat, "exclude_protein": ex_prot, "include_fat": not ex_fat, "include_protein": not ex_prot})
+        bad = []
+        for i in range(nmax):
+            fr = [keys[n][i % len(keys[n])] for n in NUTR]
+            to = [keys[n][(i + 1) % len(keys[n])] for n in NUTR]
+            it, selfobj = new_interp(index, conv2)
+            try:
+                from .core import bind_named
+                if len(fn.args.args) == 3:
+                    a_, k_ = bind_named(fn, [("from_units", PList(fr)), ("to_units", PList(list(to)))])
+                else:
+                    a_, k_ = bind_named(fn, [("from_units", PList(fr)), ("to_units_kcals", to[0]), ("to_units_fat", to[1]), ("to_units_protein", to[2])])
+                res = it.call_function(fn, a_, k_, selfobj)
+            except (Unsupported, Fork, MonthSplit, Abort) as e:
+                raise AnalysisError(f"get_conversion (fat/protein excluded) outside the analysed fragment: {e!r}")
+            evals += 1
+            for lane, n in enumerate(NUTR):
+                want = tabs[n][to[lane]] / tabs[n][fr[lane]]
+                got = it.to_rat(res.items[lane]) if isinstance(res, PList) and len(res.items) == 3 else None
+                if got != want:
+                    bad.append(f"{n}: {fr[lane]} -> {to[lane]} gives {got}")
+        rep.check(not bad, rule, f"flag-independent[exclude_fat={ex_fat}, exclude_protein={ex_prot}]",
+                  "with fat/protein excluded from the scenario the conversion factors differ from the tables (numbers of an excluded nutrient would be "
+                  "relabelled without being converted): " + "; ".join(bad[:3]), loc=loc(UC, fn))
     rep.note_analysed("get_conversion_evaluations", evals)
     # round trip and path independence on the returned conversions (explicit, per nutrient)
     for n in NUTR:
